@@ -53,7 +53,7 @@ type session struct {
 	manifestFd     storage.FileDesc
 	manifestBroken bool // an append to the current manifest failed; need external synchronization
 
-	stCompPtrs  []internalKey // compaction pointers; need external synchronization
+	stCompPtrs  []internalKey // compaction pointers; guarded by cpMu
 	stVersion   *version      // current version
 	ntVersionID int64         // next version id to assign
 	refCh       chan *vTask
@@ -63,6 +63,7 @@ type session struct {
 	closeC      chan struct{}
 	closeW      sync.WaitGroup
 	vmu         sync.Mutex
+	cpMu        sync.Mutex // guards stCompPtrs
 
 	// Testing fields
 	fileRefCh chan chan map[int64]int // channel used to pass current reference stat
